@@ -73,12 +73,35 @@ func (c23) Generate(r *engine.Rand, index int, tier string) *engine.Scenario {
 		sc.Serial = true
 		sc.SetP("cleanup_at", int64(r.Range(20, 400)))
 	}
+	if k := index % 600; k >= 20 && k < 27 {
+		// a transfer is requested (SC = 81, or 80, or 01), SC is left alone and SB is stored to every
+		// seventh cycle for a few thousand cycles, in each of the seven alignments to the request
+		sc.Class = "program-long-line"
+		sc.Serial = true
+		prog := []byte{0x3e, engine.Pick(r, []uint8{0x81, 0x81, 0x80, 0x01}), 0xe0, 0x02}
+		for i := 0; i < k-20; i++ {
+			prog = append(prog, 0x00)
+		}
+		prog = append(prog, 0x3e, uint8(r.Range(0x0b, 0xf0)), 0xe0, 0x01, 0x3c, 0x20, 0xfb, 0x18, 0xf7, 0x18, 0xfe)
+		sc.SetStr("prog", engine.Hex(prog))
+		sc.SetStr("expect", "")
+		sc.SetP("short", 1)
+		sc.Cycles = uint64(r.Range(3000, 12000))
+		return sc
+	}
 	if index%600 == 11 {
 		// one very long line: tens of thousands of bytes none of which is a line feed
 		sc.Class = "program-long-line"
 		sc.Serial = true
 		lo := uint8(r.Range(0x0b, 0xf0))
-		sc.SetStr("prog", engine.Hex([]byte{0x3e, lo, 0xe0, 0x01, 0x3c, 0x20, 0xfb, 0x18, 0xf7, 0x18, 0xfe}))
+		// a transfer is requested (SC = 81) and SC is left alone from then on; the stores to SB follow every
+		// seventh cycle, in one of the seven alignments to the moment of the request
+		prog := []byte{0x3e, engine.Pick(r, []uint8{0x81, 0x81, 0x80, 0x01}), 0xe0, 0x02}
+		for i, n := 0, (index/600)%7; i < n; i++ {
+			prog = append(prog, 0x00)
+		}
+		prog = append(prog, 0x3e, lo, 0xe0, 0x01, 0x3c, 0x20, 0xfb, 0x18, 0xf7, 0x18, 0xfe)
+		sc.SetStr("prog", engine.Hex(prog))
 		sc.SetStr("expect", "")
 		sc.Cycles = 480_000 + uint64(r.Intn(40_000))
 		if tier == "thorough" {
@@ -404,10 +427,17 @@ func (c23) Execute(sc *engine.Scenario) *engine.Result {
 			if len(executed) > 66000 {
 				res.Probe("long_line")
 			}
+			if sc.P("short", 0) != 0 {
+				res.Probe("sb_stores_every_seventh_cycle_after_a_transfer_request")
+			}
 			res.Sig("program/long-line")
 			return res
 		}
 		res.Harness = fmt.Sprintf("C23 program did not reach its end (PC=%04x, end=%04x)", m.CPU.VerifGetRegs().PC, end)
+		return res
+	}
+	if m.SerialClosed > 0 && res.Violation == nil {
+		res.Fail("C23/writer-closed-by-the-emulator", m.N, "the emulator closed the caller's serial writer (%d times): bytes the guest writes from now on cannot be delivered", m.SerialClosed)
 		return res
 	}
 	if sc.Serial {
